@@ -18,8 +18,7 @@ for _m in pkgutil.iter_modules(__path__):
         LEVEL_TEXT[_m.name] = mod.TEXT
 
 # checks that exist but are not claimed yet (reason shown in MANIFEST not_applicable)
-PENDING = {
-    "C13": "pending: the trim-writer repair 2593661 (Write always flushes) changed the machine; its operation-list proofs are being re-established",}
+PENDING = {}
 for _pid in PENDING:
     PROPS.pop(_pid, None)
     LEVEL_TEXT.pop(_pid, None)
